@@ -384,6 +384,14 @@ program drv
       case ('d')   ! explicit release; the capsule variable stays
         if (allocated(cap)) call cap%delete()
       end select
+    case ('B')   ! a second result through a capsule variable that still holds one: intent(out) finalises the first
+      if (.not. allocated(cap)) allocate(cap)
+      if (op(2:2) == 'n') then
+        arr => new_array(int(id, C_INT), cap)
+      else
+        arr => pool_get(int(id, C_INT), cap)
+      end if
+      val = size(arr)
     case ('V')
       if (op(2:2) == 'f') then
         vec = 0
@@ -904,6 +912,8 @@ def f_expand(m, op):
         return [op, "Ax"]
     if op == "Ad":
         return ["Ax"]
+    if k == "B":
+        return ["Ax", "A" + op[1:]]
     if k == "V":
         return [op, "Vx"]
     return pre + [op]
@@ -920,6 +930,8 @@ def f_enabled(m):
         if x is not None and s_ not in m.stale and (x.get("dtored") or x["owner"] == "library") and not x.get("alias"):
             ops += ["c%d:%d" % (s_, IDS[s_]), "k%d:%d" % (s_, IDS[s_]), "b%d" % s_, "v%d:%d" % (s_, IDS[s_])]
     ops.append("Ad")
+    if m.a is not None:
+        ops += ["Bn:3", "Bp:3"]  # the capsule variable is reused while it holds a block
     return ops
 
 
